@@ -189,6 +189,7 @@ fn synth_tx(era: &str, nin: usize, req: &Option<Vec<u8>>, wits: Option<Vec<W>>) 
         fee: 200_000,
         mint: None,
         required_signers: req.clone(),
+        certs: vec![],
         witnesses: wits,
     }
 }
